@@ -550,3 +550,45 @@ func VerifC10DocumentsWithAnchors() {
 	verifAssert(g == w, "C10/result-for-a-document-depends-on-its-neighbours"+label)
 	verifCover("C10/anchor-docs/end")
 }
+
+// VerifC10FilesJoined: the text yq prints for an expression over two files is the text it prints for the first file
+// followed by the text for the second, joined by one document separator unless the second part brings its own (the
+// file starts with `---`) - for expressions that yield the root and then more results of the same document, where the
+// printer has to remember which document it last printed for.
+func VerifC10FilesJoined() {
+	texts := []string{"x: 1\n", "---\ny: 2\n", "a: 1\n---\n# mid\nb: 2\n", "x: 1\n---\ny: 2\n", "# c\nb: 2\n", "--- # t\nz: 3\n", "[1, 2]\n"}
+	exprs := []string{".", "., length", "..", "length", "., ([.] | length)", "(., length) | select(. != null)", "length, ."}
+	t0, t1 := verifChoice("file0", len(texts)), verifChoice("file1", len(texts))
+	expr := exprs[verifChoice("expr", len(exprs))]
+	run := func(files []string) (string, bool) {
+		prefs := NewDefaultYamlPreferences()
+		var sb strings.Builder
+		printer := NewPrinter(NewYamlEncoder(prefs), NewSinglePrinterWriter(bufio.NewWriter(vSBWriter{&sb})))
+		ev := NewStreamEvaluator()
+		dec := NewYamlDecoder(prefs)
+		exp := vParse(expr)
+		for i, t := range files {
+			if _, err := ev.Evaluate("f"+verifItoa(int64(i))+".yml", strings.NewReader(t), exp, printer, dec); err != nil {
+				return "", false
+			}
+		}
+		return sb.String(), true
+	}
+	together, ok := run([]string{texts[t0], texts[t1]})
+	p0, ok0 := run([]string{texts[t0]})
+	p1, ok1 := run([]string{texts[t1]})
+	label := " expr=" + expr
+	verifAssert(ok == (ok0 && ok1), "C10/error-depends-on-neighbour-file"+label)
+	if !ok || !ok0 || !ok1 {
+		return
+	}
+	want := p0
+	if !strings.HasPrefix(p1, "---\n") {
+		want += "---\n"
+	}
+	want += p1
+	verifObserve("together", together)
+	verifObserve("want", want)
+	verifAssert(together == want, "C10/output-for-two-files-is-not-the-outputs-joined"+label)
+	verifCover("C10/files-joined/end")
+}
